@@ -317,6 +317,7 @@ func cmdRegistry(args []string) {
 		n = 30000
 	}
 	marker, _ := lint.NewConfigFromString("[verif_marker]\nx = 1\n")
+	scribble, _ := lint.NewConfigFromString("[verif_scribble]\nx = 2\n")
 	// filters are taken from the global registry and from two derived registries carrying a marker configuration
 	parents := []lint.Registry{g}
 	// (a Filter with valid options that fails here is itself recorded by the random jobs below; the derived parents are then left out)
@@ -417,6 +418,11 @@ func cmdRegistry(args []string) {
 					o.ExcludeNames = []string{tok(universe[(i*37)%len(universe)])}
 				}
 			}
+			// every tenth call repeats, on the same registry, the options of a call made long before: whoever received that
+			// earlier result has configured it since (below), and the new result must carry the parent's configuration again
+			if i%10 == 9 && i >= 200 {
+				pi, o = jobs[i-200].parent, jobs[i-200].opts
+			}
 			jobs = append(jobs, fjob{parent: pi, opts: o})
 		}
 		return jobs
@@ -487,6 +493,9 @@ func cmdRegistry(args []string) {
 				sel = ranks(rk, rv.Names)
 				same = res == parent
 				cfgSame = res.GetConfiguration() == beforeCfg
+				if res != parent {
+					res.SetConfiguration(scribble) // the caller's own registry now: nothing of this may show anywhere else
+				}
 				inKind := 0
 				for _, k := range []string{"cert", "crl", "ocsp"} {
 					for _, nme := range rv.PerKind[k] {
